@@ -37,6 +37,11 @@ type cObs struct {
 func builderRules(rb *builder.RuleBuilder) ([]string, bool) {
 	out := []string{}
 	ok := len(rb.Kc.SortRules) == len(rb.Kc.RuleEntities) && len(rb.Kc.SortRulesIndexMap) == len(rb.Kc.SortRules)
+	for name := range rb.Kc.RuleEntities {
+		if ex := rb.IsExist([]string{name}); len(ex) != 1 || !ex[0] {
+			ok = false
+		}
+	}
 	for i, r := range rb.Kc.SortRules {
 		out = append(out, fmt.Sprintf("%s|%d|%s", r.RuleName, r.Salience, r.RuleDescription))
 		if rb.Kc.SortRulesIndexMap[r.RuleName] != i {
@@ -93,9 +98,11 @@ func runCompileCase(c *cCase) cObs {
 	// 1, 2: stand-alone builder
 	for _, entry := range []string{"builder-full", "builder-incremental"} {
 		rb := builder.NewRuleBuilder(context.NewDataContext())
-		if e := rb.BuildRuleFromString(c.Base); e != nil {
-			add(cEntryObs{Entry: entry, Panic: "base does not compile: " + e.Error()})
-			continue
+		if c.Base != "" {
+			if e := rb.BuildRuleFromString(c.Base); e != nil {
+				add(cEntryObs{Entry: entry, Panic: "base does not compile: " + e.Error()})
+				continue
+			}
 		}
 		o := cEntryObs{Entry: entry}
 		o.Before, _ = builderRules(rb)
@@ -126,10 +133,17 @@ func runCompileCase(c *cCase) cObs {
 	}
 	// 4, 5: pool updates
 	for _, entry := range []string{"pool-full-update", "pool-incremental-update"} {
-		gp, e0 := engine.NewGenginePool(1, 2, 1, c.Base, map[string]interface{}{})
+		base := c.Base
+		if base == "" { // an empty pool: construct with a placeholder rule, then clear
+			base = "rule \"placeholder__\" begin end"
+		}
+		gp, e0 := engine.NewGenginePool(1, 2, 1, base, map[string]interface{}{})
 		if e0 != nil {
 			add(cEntryObs{Entry: entry, Panic: "base does not compile: " + e0.Error()})
 			continue
+		}
+		if c.Base == "" {
+			gp.ClearPoolRules()
 		}
 		o := cEntryObs{Entry: entry, IndexOK: true}
 		o.Before = poolRules(gp)
